@@ -169,7 +169,7 @@ static void print_state(void) {
         ZSTDMT_jobDescription* j = &m->jobs[k];
         printf(" %u:%ld:%zu:%ld:%zu:%zu:", j->jobID, off_of(j->src.start), j->src.size, off_of(j->prefix.start), j->prefix.size, j->consumed);
         if (ZSTD_isError(j->cSize)) printf("E"); else printf("%zu", j->cSize);
-        printf(":%d:%u:%u:%u:%zu", j->dstBuff.start != NULL, j->firstJob, j->lastJob, j->frameChecksumNeeded, j->dstFlushed);
+        printf(":%d:%u:%u:%u:%zu:%u", j->dstBuff.start != NULL, j->firstJob, j->lastJob, j->frameChecksumNeeded, j->dstFlushed, j->jobCompleted);
     }
     printf(" | own");
     for (k = 0; k <= m->jobIDMask; k++) printf(" %d", owner_of(&m->jobs[k].job_mutex));
